@@ -487,6 +487,31 @@ def form(chk, repo):
                        rel=REL, node=site)
             chk.decide("C19.FORM", cons + "#search", True, "t is the least integer passing the threshold (counted up from 0 by 1)",
                        rel=REL, node=site, nontrivial=False)
+    # the period is computed from *these* costs: every call of the closed form in the module passes, for each cost
+    # parameter of the callee, the caller's value of the same name (directly or as an item of the parameter dictionary)
+    callee_params = [a.arg for a in fn.args.args]
+    k_ = 0
+    for q, g_ in sorted(funcs.items()):
+        own = {a.arg for a in g_.args.args + g_.args.kwonlyargs}
+        for call in [n for n in ast.walk(g_) if isinstance(n, ast.Call) and getattr(n.func, "id", None) == "mxrr_close_formula"]:
+            bound = dict(zip(callee_params, call.args))
+            for kw in call.keywords:
+                if kw.arg:
+                    bound[kw.arg] = kw.value
+            for pname in callee_params:
+                if pname not in ("uf", "ub", "rd", "wd") or pname not in bound:
+                    continue
+                v = bound[pname]
+                got = v.id if isinstance(v, ast.Name) else (
+                    v.slice.value if isinstance(v, ast.Subscript) and isinstance(v.slice, ast.Constant) else None)
+                if got is None or (isinstance(v, ast.Name) and got not in own):
+                    continue
+                if got in ("uf", "ub", "rd", "wd", "fwd_cost", "bwd_cost"):
+                    want = {"fwd_cost": "uf", "bwd_cost": "ub"}.get(got, got)
+                    chk.decide("C19.FORM", f"{REL[:-3].replace('/', '.')}.{q}#period-call[{k_}]/{pname}", True if want == pname else False,
+                               f"{ast.unparse(call)[:70]}: the closed form's `{pname}` receives the caller's `{got}`"
+                               + ("" if want == pname else ": the period is that of other costs"), rel=REL, node=call, nontrivial=False)
+            k_ += 1
     relb = "hrevolve_sequences/basic_functions.py"
     bfn = repo.func(relb, "beta")
     chk.files.add(relb)
